@@ -507,32 +507,33 @@ class IncludeHandler(Handler):
 
         if start_after_text or end_before_text:
             line = node.span[0]
-            any_start, any_end = False, False
             try:
                 # Returns a subgraph of the AST based on text bounds
                 deep_copy_children, any_start, any_end = self.bound_included_AST(
                     deep_copy_children, start_after_text, end_before_text
                 )
             except Exception as e:
+                # Both texts were found, in the wrong order: that is all there is to report
                 self.context.diagnostics[fileid_stack.current].append(
                     InvalidInclude(str(e), line)
                 )
-            # Confirm that we found all specified text (with helpful diagnostic )message if not)
-            msg = "Please be sure your text is a comment or label. Search is case-sensitive."
-            if start_after_text and not any_start:
-                self.context.diagnostics[fileid_stack.current].append(
-                    InvalidInclude(
-                        f"Could not find specified start-after text: '{start_after_text}'. {msg}",
-                        line,
+            else:
+                # Confirm that we found all specified text (with helpful diagnostic message if not)
+                msg = "Please be sure your text is a comment or label. Search is case-sensitive."
+                if start_after_text and not any_start:
+                    self.context.diagnostics[fileid_stack.current].append(
+                        InvalidInclude(
+                            f"Could not find specified start-after text: '{start_after_text}'. {msg}",
+                            line,
+                        )
                     )
-                )
-            if end_before_text and not any_end:
-                self.context.diagnostics[fileid_stack.current].append(
-                    InvalidInclude(
-                        f"Could not find specified end-before text: '{end_before_text}'. {msg}",
-                        line,
+                if end_before_text and not any_end:
+                    self.context.diagnostics[fileid_stack.current].append(
+                        InvalidInclude(
+                            f"Could not find specified end-before text: '{end_before_text}'. {msg}",
+                            line,
+                        )
                     )
-                )
 
         # This is a bit sketchy, but retain replacement directives for replacement processing later
         node.children = [
